@@ -42,7 +42,11 @@ MANIFEST = dict(
           "the implementation (Ok/Err, value, call counts, call points, second call; bit-compared) on shared-AST functions, f64 and "
           "Complex; an independent oracle (known roots, stopping-test replay, last-iterate recomputation, call bounds, parameters "
           "before/after) searches for a failing input, including root-free and non-differentiable functions."),
-    note="Convergence within the basin is proved for two families only; everything else about convergence and all float rounding is tied and searched.",
+    note=("Convergence over R is proved for: affine scalar functions and affine systems (exact root in one pass, at Qc, R and C); x^2 - c (newton_sqrt, "
+          "newton_sqrt_converges); every C^1 scalar function with a Lipschitz derivative inside its basin (newton_basin_no_panic / _contraction / _ok / _pass_count, "
+          "newton_quadratic_step, newton_ok_near_root_general), convex monotone functions from any start above the root (newton_monotone*), the same for 1x1 systems "
+          "(newton_sys1d_*) and for decoupled systems of any dimension with supplied or finite-difference Jacobian (newton_decoupled_*, newton_fd_decoupled_*). "
+          "Convergence of genuinely coupled nonlinear systems and all float rounding are tied and searched, not proved."),
     technique="Coq proof over an abstract arithmetic (no laws needed for the termination half; R for convergence) + model/implementation differential execution",
     design="7 (C17)")
 
@@ -388,7 +392,9 @@ def gen_sys_termination(rng, N):
             guess = [rng.unit(), rng.unit()]
             if rng.chance(1, 2): jac = (2, 2, [L(1.0), L(0.0), L(0.0), L(1.0)])        # wrong slope: linear convergence
             else: jac = (2, 3, [L(1.0)] * 6)                                              # wrong shape: rejected
-        cases.append(mk_sys('f64', tol, delta, iters, guess, fns, {"root0": None, "expect_ok": False}, "sys-termination-" + fam, jac=jac))
+        # only a shape the step solver rejects may panic; the regular no-root / singular / NaN families must terminate
+        may_panic = fam in ("nonsquare", "empty") or (jac is not None and (jac[0], jac[1]) != (n, n))
+        cases.append(mk_sys('f64', tol, delta, iters, guess, fns, {"root0": None, "expect_ok": False, "may_panic": may_panic}, "sys-termination-" + fam, jac=jac))
     return cases
 
 def gen_sys_builtin(rng, N):
@@ -483,10 +489,8 @@ def oracle(case, items):
     kind = meta["kind"]
     pc = panic_of(items)
     if pc:
-        if kind != "scalar" and (meta.get("root0") is None and not meta.get("refine")):
-            return None          # non-square / empty / singular systems may be rejected by the step solver
-        if kind == "scalar" and meta.get("builtin") is None and not meta.get("expect_ok"):
-            return None
+        if kind != "scalar" and meta.get("may_panic"):
+            return None          # non-square / empty systems and Jacobians of the wrong shape are rejected by the step solver
         return "Newton %s panicked (%s) on a regular function" % (kind, pc)
     n = 1 if kind == "scalar" else len(meta["guess"])
     per = 3 if kind == "scalar" else (2 if kind == "sysjac" else n + 2)
